@@ -382,12 +382,38 @@ func valenumHuge(frame *rm.Value) bool {
 	return true
 }
 
+// histSweep: bounds of the complete size sweeps used by the history legs (every prefixed-text length, every list length).
+var histSweepText, histSweepList = 2200, 300
+
+// enumV1 enumerates V1 of t (Big alphabets) followed by the complete size sweeps.
+func enumV1(t *rm.Type, o valenum.Opts, fn func(c *valenum.Case) bool) {
+	stop := false
+	o.Combos = true
+	valenum.Enum(t, o, func(c *valenum.Case) bool {
+		if !fn(c) {
+			stop = true
+		}
+		return !stop
+	})
+	if stop {
+		return
+	}
+	o.Big, o.Combos, o.SweepText, o.SweepList = false, false, histSweepText, histSweepList
+	valenum.Enum(t, o, func(c *valenum.Case) bool {
+		if c.NDev == 0 {
+			return true
+		}
+		c.Desc = "size sweep " + c.Desc
+		return fn(c)
+	})
+}
+
 // v1Histories runs one fixed short history on a single message object for EVERY value of V1 of the given types
 // (the history explorers above use a few fixed messages per type; this leg covers the value dimension).
 func v1Histories(r *ev.Run, prop string, types []*rm.Type, seqs [][]hOp, capClass int, skipObj bool, canonical bool) {
 	parTypes(r, types, func(t *rm.Type, l *ev.Local) {
 		sc := &hScenario{Name: t.QName() + " v1", T: t, SkipObjectCheck: skipObj}
-		valenum.Enum(t, valenum.Opts{K: 1, Big: true, Canonical: canonical}, func(c *valenum.Case) bool {
+		enumV1(t, valenum.Opts{K: 1, Big: true, Canonical: canonical}, func(c *valenum.Case) bool {
 			if _, err := rm.EncodeBytes(c.V); err != nil {
 				return true
 			}
@@ -434,7 +460,7 @@ func frameBodyHistories(r *ev.Run, prop string, frames []*rm.Type, seqs [][]hOp,
 				t := j.t
 				bt := t.Proto.Type(dynTable(t).Entries[j.key])
 				sc := &hScenario{Name: t.QName() + " key " + j.key + " body-v1", T: t}
-				valenum.Enum(bt, valenum.Opts{K: 1, Big: true}, func(c *valenum.Case) bool {
+				enumV1(bt, valenum.Opts{K: 1, Big: true}, func(c *valenum.Case) bool {
 					fv := valenum.Stale(valenum.WithKey(t, j.key, "Z"), 4)
 					fv.Fields[t.DynField()] = c.V.Clone()
 					if _, err := rm.EncodeBytes(fv); err != nil {
